@@ -12,7 +12,7 @@ type sibScope struct {
 
 var siblingScopes = map[string]sibScope{
 	"C01": {[]string{"ecc/*/fr#4", "ecc/*/fp#4", "ecc/*/fp#6", "ecc/*/fr#6"}, `.`, 150},
-	"C02": {[]string{"ecc/*", "ecc/*/twistededwards"}, `^\(\*?[gG]N[A-Za-z]*\)\.(Add|AddAssign|AddMixed|Sub|SubAssign|Double|DoubleAssign|DoubleMixed|Neg|Equal|IsOnCurve|IsInSubGroup|IsInfinity|IsZero|FromAffine|FromJacobian|FromJacExtended|fromJacExtended|ToAffine|add|addMixed|subMixed|double|doubleMixed|doubleNegMixed|setInfinity|Set|ClearCofactor|unsafeFromJacExtended)$|^\(\*?Point[A-Za-z]*\)\.(Add|MixedAdd|Double|MixedDouble|Neg|Equal|IsOnCurve|IsZero|FromProj|FromAffine|FromExtended|Set)$|^BatchJacobianToAffineGN$|^BatchProjectiveToAffineGN$`, 40},
+	"C02": {[]string{"ecc/*", "ecc/*/twistededwards"}, `^\(\*?[gG]N[A-Za-z]*\)\.(Add|AddAssign|AddMixed|Sub|SubAssign|Double|DoubleAssign|DoubleMixed|Neg|Equal|IsOnCurve|IsInSubGroup|IsInfinity|IsZero|FromAffine|FromJacobian|FromJacExtended|fromJacExtended|ToAffine|add|addMixed|subMixed|double|doubleMixed|doubleNegMixed|setInfinity|Set|ClearCofactor|unsafeFromJacExtended)$|^\(\*?Point[A-Za-z]*\)\.(Add|MixedAdd|Double|MixedDouble|Neg|Equal|IsOnCurve|IsZero|FromProj|FromAffine|FromExtended|Set)$|^BatchJacobianToAffineG[12N]$|^BatchProjectiveToAffineG[12N]$|^batchProjectiveToAffineG[12N]$`, 40},
 	"C03": {[]string{"ecc/*", "ecc/*/twistededwards"}, `ScalarMultiplication|mulGLV|mulWindowed|JointScalarMultiplication|BatchScalarMultiplication|scalarMulWindowed|scalarMulGLV`, 12},
 	"C04": {[]string{"ecc/*"}, `MultiExp|innerMsm|processChunk|partitionScalars|Fold|batchAdd|msmReduceChunk|getChunkProcessor|computeNbChunks|lastC`, 8},
 	"C05": {[]string{"ecc/*"}, `^(Pair|PairingCheck|MillerLoop|FinalExponentiation|PairFixedQ|PairingCheckFixedQ|MillerLoopFixedQ|PrecomputeLines)$|[sS]tep|lineCompute|^\(\*gNProj\)|^\(\*lineEvaluation`, 6},
